@@ -208,7 +208,8 @@ impl QpModel {
             let s = if lay.numbers == 0 {
                 format!("{:?}", v)
             } else {
-                match rng.below(5) {
+                match rng.below(6) {
+                    5 if v == 0.0 => (*rng.pick(&["-0", "-0.0", "-0e0", "+0"])).to_string(),
                     0 => format!("{}", v),
                     1 => format!("{:e}", v),
                     2 => format!("{:E}", v).replace('E', "E+").replace("E+-", "E-"),
